@@ -1627,3 +1627,160 @@ package go_clipper2
 //@   loop 2.2 invariant [corner-walk] validLoc(prev) && validLoc(loc) && validLoc(crossingLoc) && rectOK(r) && 0 <= i && i <= highI && highI == len(path) - 1
 //@   loop 3 invariant [corners] 0 <= j && j <= 4 && rectOK(r)
 //@   loop 4 invariant [start-locs] rectOK(r)
+
+// ---------------------------------------------------------------------------------
+// Path utilities of the public API: total, element-wise specifications (C03; C13 for translation)
+// ---------------------------------------------------------------------------------
+
+//@ func OffsetPath
+//@   props C03 C13
+//@   arith wrap
+//@   loop 0 invariant [each] len(result) == len(path) && forall(k, 0, _i, result[k].X == wrap64(path[k].X + dx) && result[k].Y == wrap64(path[k].Y + dy))
+//@   ensures [translated] len(result) == len(path) && forall(k, 0, len(path), result[k].X == wrap64(path[k].X + dx) && result[k].Y == wrap64(path[k].Y + dy))
+
+//@ func TranslatePath64
+//@   props C03 C13
+//@   arith wrap
+//@   loop 0 invariant [each] len(result) == len(path) && forall(k, 0, _i, result[k].X == wrap64(path[k].X + dx) && result[k].Y == wrap64(path[k].Y + dy))
+//@   ensures [translated] len(result) == len(path) && forall(k, 0, len(path), result[k].X == wrap64(path[k].X + dx) && result[k].Y == wrap64(path[k].Y + dy))
+
+//@ func TranslatePaths64
+//@   props C03 C13
+//@   loop 0 invariant [each] len(result) == len(paths) && forall(k, 0, _i, len(result[k]) == len(paths[k]))
+//@   ensures [shape] len(result) == len(paths) && forall(k, 0, len(paths), len(result[k]) == len(paths[k]))
+
+//@ func TranslatePathD
+//@   props C03
+//@   loop 0 invariant [each] len(result) == len(path) && forall(k, 0, _i, result[k].X == path[k].X + dx && result[k].Y == path[k].Y + dy)
+//@   ensures [translated] len(result) == len(path) && forall(k, 0, len(path), result[k].X == path[k].X + dx && result[k].Y == path[k].Y + dy)
+
+//@ func TranslatePathsD
+//@   props C03
+//@   loop 0 invariant [each] len(result) == len(paths) && forall(k, 0, _i, len(result[k]) == len(paths[k]))
+//@   ensures [shape] len(result) == len(paths) && forall(k, 0, len(paths), len(result[k]) == len(paths[k]))
+
+//@ func ScalePath64
+//@   props C03
+//@   panicfree
+//@   loop 0 invariant [len] len(result) == len(path)
+//@   ensures [shape] len(result) == len(path)
+
+//@ func ScalePathD
+//@   props C03
+//@   loop 0 invariant [each] len(result) == len(path) && forall(k, 0, _i, result[k].X == path[k].X * scale && result[k].Y == path[k].Y * scale)
+//@   ensures [shape] len(result) == len(path)
+
+//@ func PathDToPath64
+//@   props C03
+//@   panicfree
+//@   loop 0 invariant [len] len(result) == len(path)
+//@   ensures [shape] len(result) == len(path)
+
+//@ func PathsDToPaths64
+//@   props C03
+//@   panicfree
+//@   loop 0 invariant [each] len(result) == len(path) && forall(k, 0, _i, len(result[k]) == len(path[k]))
+//@   ensures [shape] len(result) == len(path) && forall(k, 0, len(path), len(result[k]) == len(path[k]))
+
+//@ func Path64ToPathD
+//@   props C03
+//@   loop 0 invariant [each] len(result) == len(path) && forall(k, 0, _i, (absI(path[k].X) <= pow2(53) ==> result[k].X == toReal(path[k].X)) && (absI(path[k].Y) <= pow2(53) ==> result[k].Y == toReal(path[k].Y)))
+//@   ensures [exact-below-two-to-53] len(result) == len(path) && forall(k, 0, len(path), (absI(path[k].X) <= pow2(53) ==> result[k].X == toReal(path[k].X)) && (absI(path[k].Y) <= pow2(53) ==> result[k].Y == toReal(path[k].Y)))
+
+//@ func Paths64ToPathsD
+//@   props C03
+//@   loop 0 invariant [each] len(result) == len(path) && forall(k, 0, _i, len(result[k]) == len(path[k]))
+//@   ensures [shape] len(result) == len(path) && forall(k, 0, len(path), len(result[k]) == len(path[k]))
+
+//@ func MakePath64
+//@   props C03
+//@   loop 0 invariant [pairs] 0 <= i && i <= l && l == len(vals) / 2 && len(result) == l && forall(k, 0, i, result[k].X == vals[2*k] && result[k].Y == vals[2*k+1])
+//@   loop 0 decreases l - i
+//@   ensures [pairs] len(result) == len(vals) / 2 && forall(k, 0, len(result), result[k].X == vals[2*k] && result[k].Y == vals[2*k+1])
+
+//@ func MakePathD
+//@   props C03
+//@   loop 0 invariant [pairs] 0 <= i && i <= l && l == len(vals) / 2 && len(result) == l && forall(k, 0, i, result[k].X == vals[2*k] && result[k].Y == vals[2*k+1])
+//@   loop 0 decreases l - i
+//@   ensures [pairs] len(result) == len(vals) / 2 && forall(k, 0, len(result), result[k].X == vals[2*k] && result[k].Y == vals[2*k+1])
+
+// single-path wrappers of the rectangle clippers: exactly the multi-path operation on a one-element set
+//@ func RectClipPath64
+//@   props C06 C03
+//@   requires rectDom(rect)
+//@   ensures [empty] (rect.bottom <= rect.top || rect.right <= rect.left || len(path) == 0) ==> len(result) == 0
+//@   ensures [wrapper] !(rect.bottom <= rect.top || rect.right <= rect.left || len(path) == 0) ==> same(result, rectClipExec(rect, getPathRectClip, Paths64{path}))
+
+//@ func RectClipLinesPath64
+//@   props C11 C03
+//@   requires rectDom(rect)
+//@   ensures [empty] (rect.bottom <= rect.top || rect.right <= rect.left || len(path) == 0) ==> len(result) == 0
+//@   ensures [wrapper] !(rect.bottom <= rect.top || rect.right <= rect.left || len(path) == 0) ==> same(result, rectClipLinesExec(rect, Paths64{path}))
+
+// floating-point boolean wrappers: the named operation of BooleanOpPathsD (C19's vocabulary, C07's API)
+//@ func BooleanOpPathsD
+//@   props C19 C07
+//@   pure
+//@   frameonly
+
+//@ func UnionPathsD
+//@   props C19 C07
+//@   ensures [wrapper] same(result, BooleanOpPathsD(Union, subject, nil, fillRule, precision...))
+
+//@ func UnionWithClipPathsD
+//@   props C19 C07
+//@   ensures [wrapper] same(result, BooleanOpPathsD(Union, subject, clip, fillRule, precision...))
+
+//@ func IntersectWithClipPathsD
+//@   props C19 C07
+//@   ensures [wrapper] same(result, BooleanOpPathsD(Intersection, subject, clip, fillRule, precision...))
+
+//@ func DifferenceWithClipPathsD
+//@   props C19 C07
+//@   ensures [wrapper] same(result, BooleanOpPathsD(Difference, subject, clip, fillRule, precision...))
+
+//@ func XorWithClipPathsD
+//@   props C19 C07
+//@   ensures [wrapper] same(result, BooleanOpPathsD(Xor, subject, clip, fillRule, precision...))
+
+//@ spec groupsOK(co *ClipperOffset) bool = forall(k, 0, len(co.groupList), co.groupList[k] != nil)
+
+//@ func ClipperOffset.CalcSolutionCapacity
+//@   props C03
+//@   panicfree
+//@   assumes groupsOK(co)
+//@   loop 0 invariant [groups] groupsOK(co)
+
+//@ func ClipperOffset.CheckPathsReversed
+//@   props C03
+//@   panicfree
+//@   assumes groupsOK(co)
+//@   loop 0 invariant [groups] groupsOK(co)
+//@   ensures [first-polygon-group] (forall(k, 0, len(co.groupList), co.groupList[k].endType != Polygon)) ==> !result
+
+//@ func ClipperOffset.checkPathsReversed
+//@   props C03
+//@   panicfree
+//@   assumes groupsOK(co)
+//@   loop 0 invariant [groups] groupsOK(co)
+
+//@ func startLocsAreClockwise
+//@   props C03 C06
+//@   panicfree
+//@   loop 0 invariant [idx] 1 <= i
+//@   loop 0 decreases len(startLocs) - i
+
+//@ func NewRectClipLines64
+//@   props C11 C03
+//@   requires rectDom(rect)
+//@   ensures [wired] result != nil && result.RectClip64 != nil && result.rect == rect && same(result.getPath, getPathRectClipLine) && len(result.results) == 0
+
+//@ func RectClipPathD
+//@   props C03 C07
+//@   requires absI(rect.left*pow10(2)) < 2305843009213693952.0 && absI(rect.top*pow10(2)) < 2305843009213693952.0 && absI(rect.right*pow10(2)) < 2305843009213693952.0 && absI(rect.bottom*pow10(2)) < 2305843009213693952.0
+//@   ensures [empty] (rect.bottom <= rect.top || rect.right <= rect.left || len(path) == 0) ==> len(result) == 0
+
+//@ func RectClipLinesPathD
+//@   props C03 C07
+//@   requires absI(rect.left*pow10(2)) < 2305843009213693952.0 && absI(rect.top*pow10(2)) < 2305843009213693952.0 && absI(rect.right*pow10(2)) < 2305843009213693952.0 && absI(rect.bottom*pow10(2)) < 2305843009213693952.0
+//@   ensures [empty] (rect.bottom <= rect.top || rect.right <= rect.left || len(path) == 0) ==> len(result) == 0
